@@ -1,8 +1,8 @@
 #!/bin/sh
-# keepseed.sh <Cxx> <n> <name> "<detected-by text>"  -- archive a confirmed seeded change from /tmp/seed/Cxx/out into /verif/seeded/<name>/
+# keepseed.sh <Cxx> <n> <name> "<detected-by text>"  -- archive a confirmed seeded change from ${SEEDROOT:-/tmp/seed}/Cxx/out into /verif/seeded/<name>/
 set -e
 P=$1; N=$2; NAME=$3; DET=$4
-SRC=/tmp/seed/$P/out
+SRC=${SEEDROOT:-/tmp/seed}/$P/out
 DST=/verif/seeded/$NAME
 mkdir -p $DST
 cp $SRC/patch_$N.diff $DST/patch.diff
